@@ -12,7 +12,7 @@
 // Observation (projected): n m w(omega) a(alpha) mc(maximal cliques) chi kc(IsKColorable for
 // k=0..n+1) dg(degeneracy) gr(first-fit colourings) pr(IsProperColouring answers), and at
 // level 1 also ci(chromatic index) and pk(number of proper k-colourings, k=0..n+1, from the
-// chromatic polynomial).
+// chromatic polynomial) and cp(its coefficients, constant term first).
 package main
 
 import (
@@ -41,7 +41,9 @@ type fields struct {
 	kc     string
 	ci     int // -2 = not computed
 	pk     string
+	cp     string // coefficients of the chromatic polynomial, constant term first
 	dg     int
+	ord    string // the order returned by Degeneracy (implementation detail: strict part only)
 	gr, pr []string
 }
 
@@ -50,7 +52,7 @@ func (f fields) line(level int) string {
 	fmt.Fprintf(&sb, "n=%d m=%d w=%d a=%d mc=%s chi=%d kc=%s dg=%d gr=%s pr=%s", f.n, f.m, f.w, f.a, f.mc, f.chi, f.kc, f.dg,
 		strings.Join(f.gr, "|"), strings.Join(f.pr, ""))
 	if level >= 1 {
-		fmt.Fprintf(&sb, " ci=%d pk=%s", f.ci, f.pk)
+		fmt.Fprintf(&sb, " ci=%d pk=%s cp=%s", f.ci, f.pk, f.cp)
 	}
 	return sb.String()
 }
@@ -127,10 +129,11 @@ func observe(c gx.Case, v gx.Variant, viol *[]hx.OracleViolation) fields {
 				fail("AllMaximalCliques", "vertex repeated in %v", cl)
 			}
 		}
+		bad := false
 		for i, x := range s {
 			if x < 0 || x >= n {
 				fail("AllMaximalCliques", "vertex out of range in %v", cl)
-				s = nil
+				bad = true
 				break
 			}
 			for _, y := range s[:i] {
@@ -139,7 +142,7 @@ func observe(c gx.Case, v gx.Variant, viol *[]hx.OracleViolation) fields {
 				}
 			}
 		}
-		if s == nil {
+		if bad {
 			continue
 		}
 		for u := 0; u < n; u++ {
@@ -263,6 +266,7 @@ func observe(c gx.Case, v gx.Variant, viol *[]hx.OracleViolation) fields {
 			s = append(s, val.String())
 		}
 		f.pk = strings.Join(s, ",")
+		f.cp = gx.JoinInts(poly, ",")
 		if eg.N() != n || eg.M() != f.m || !sameGraph(eg, h) {
 			fail("ChromaticPolynomial", "the argument was modified")
 		}
@@ -271,6 +275,7 @@ func observe(c gx.Case, v gx.Variant, viol *[]hx.OracleViolation) fields {
 	// degeneracy with certificate
 	d, order := graph.Degeneracy(g)
 	f.dg = d
+	f.ord = gx.JoinInts(order, ".")
 	if !isPerm(order, n) {
 		fail("Degeneracy", "order %v is not a permutation of the vertices", order)
 	} else {
@@ -371,13 +376,18 @@ func exec(line string) hx.Result {
 			continue
 		}
 		f := observe(c, v, &viol)
-		if f.pk == "" { // not an editable representation: nothing to compare
-			f.pk = ref.pk
-		}
 		if i == 0 {
 			first = f
+			// the coefficients are determined by the values (n+1 values fix a polynomial of degree
+			// <= n), which are compared with the definition; the coefficient arrays of the other
+			// variants are compared with those of the first
+			ref.cp = f.cp
 		} else {
 			nonDense = true
+		}
+		if f.pk == "" { // not an editable representation: nothing to compare
+			f.pk = ref.pk
+			f.cp = ref.cp
 		}
 		// level 1 line holds every field
 		if got, want := f.line(1), ref.line(1); got != want {
@@ -398,7 +408,7 @@ func exec(line string) hx.Result {
 		}
 		b = append(b, fmt.Sprintf("class=%d", 1+ref.ci-maxDeg))
 	}
-	return hx.Result{Obs: first.line(c.Level), Nontrivial: nontrivial, Buckets: b, Viol: viol}
+	return hx.Result{Obs: first.line(c.Level) + " ## order=" + first.ord, Nontrivial: nontrivial, Buckets: b, Viol: viol}
 }
 
 func main() {
